@@ -109,6 +109,17 @@ pub fn corpus() -> Vec<(String, Box<dyn Fn(&dyn QueryBuilder) -> (String, Values
             add!(format!("func {name} expect-pg=[{want},99] expect-my=[{want},99]"), Query::select().expr(f).from(a("t")).and_where(Expr::col(a("c")).eq(99)).to_owned());
         }
     }
+    // rows given as Rust TUPLES of every width 1..12 (IntoValueTuple is macro-generated per width): VALUES lists and IN (tuples) bind the
+    // values of a row in the order they were written
+    {
+        macro_rules! row { ($w:expr, $($k:expr),+) => {{
+            let want: Vec<String> = (0..$w).map(|k| format!("{}", 100 + k)).collect(); let want = want.join(",");
+            add!(format!("from_values row of {} expect-pg=[{want},7] expect-my=[{want},7]", $w), Query::select().column(Asterisk).from_values([($(100 + $k),+ ,)], a("v")).and_where(Expr::col(a("c")).eq(7)).to_owned());
+        }}; }
+        add!("from_values row of 1 expect-pg=[100,7] expect-my=[100,7]".to_string(), Query::select().column(Asterisk).from_values([100], a("v")).and_where(Expr::col(a("c")).eq(7)).to_owned());
+        row!(2, 0, 1); row!(3, 0, 1, 2); row!(4, 0, 1, 2, 3); row!(5, 0, 1, 2, 3, 4); row!(6, 0, 1, 2, 3, 4, 5); row!(7, 0, 1, 2, 3, 4, 5, 6); row!(8, 0, 1, 2, 3, 4, 5, 6, 7);
+        row!(9, 0, 1, 2, 3, 4, 5, 6, 7, 8); row!(10, 0, 1, 2, 3, 4, 5, 6, 7, 8, 9); row!(11, 0, 1, 2, 3, 4, 5, 6, 7, 8, 9, 10); row!(12, 0, 1, 2, 3, 4, 5, 6, 7, 8, 9, 10, 11);
+    }
     // UPDATE with extra tables: MySQL moves the condition into JOIN .. ON (bound BEFORE the SET values, once); Postgres keeps WHERE
     for nf in 0..3usize {
         let mut u = Query::update(); u.table(a("t")).value(a("x"), 31).value(a("y"), 32).and_where(Expr::col(a("c")).gt(33));
